@@ -707,6 +707,11 @@ func (r *Run) originOf(fn *Func, x ast.Expr, depth int) (ast.Expr, *Func) {
 			}
 			fv := litField(cl, sel.Obj().Name())
 			if fv == nil {
+				// not given in the literal: set by the one assignment of the package (t := &T{…}; t.f = …)
+				if sx, sfn := r.soleFieldSetter(fn, sel.Obj().(*types.Var)); sx != nil {
+					fn, x = sfn, sx
+					continue
+				}
 				return x, fn
 			}
 			fn, x = bfn, fv
